@@ -417,7 +417,7 @@ func typeKey(t types.Type) string {
 		case u.Info()&types.IsFloat != 0:
 			return "f64"
 		case u.Info()&types.IsString != 0:
-			return "str"
+			return "string" // ("E:str" is the heap of string bytes)
 		case u.Info()&types.IsBoolean != 0:
 			return "bool"
 		case u.Kind() == types.Uint8:
@@ -639,7 +639,13 @@ func (vc *VC) subRef(owner types.Type, i int, ref Term) Term {
 	}
 	s := structOf(owner)
 	fn := "sub!" + smtName(typeKey(owner)) + "!" + s.Field(i).Name()
-	vc.declFun(fn, []Sort{SInt}, SInt)
+	if !vc.declSet[fn] {
+		vc.declFun(fn, []Sort{SInt}, SInt)
+		// an embedded struct is part of its enclosing object: it was allocated during the call iff the object was
+		r := Term{"r?", SInt}
+		app := App(SInt, fn, r)
+		vc.assumeGlobal(Forall([]Term{r}, [][]Term{{app}}, Eq(Ge(app, Term{"alloc0", SInt}), Ge(r, Term{"alloc0", SInt}))))
+	}
 	return App(SInt, fn, ref)
 }
 
